@@ -291,3 +291,4 @@ def run(ctx):
     r_vector_encoding(ctx)
     import vec_rules
     vec_rules.bq_packer(ctx, 'R-BQ-PACK')
+    vec_rules.bq_entry_points(ctx, 'R-BQ-PACK')
